@@ -10,6 +10,28 @@ UNSIGNED_BITS = {'uint8': 8, 'uint16': 16, 'uint32': 32, 'uint64': 64, 'bool': 1
 SIGNED_BITS = {'int8': 8, 'int16': 16, 'int32': 32, 'int64': 64}
 
 
+def _has_quantifier(t, _cache={}):
+    tid = t.get_id()
+    if tid in _cache:
+        return _cache[tid]
+    stack = [t]
+    seen = set()
+    res = False
+    n = 0
+    while stack:
+        x = stack.pop()
+        if x.get_id() in seen:
+            continue
+        seen.add(x.get_id())
+        n += 1
+        if z3.is_quantifier(x) or n > 4000:
+            res = True
+            break
+        stack.extend(x.children())
+    _cache[tid] = res
+    return res
+
+
 def elem_sort(elem):
     if elem == 'float':
         return z3.RealSort()
@@ -29,6 +51,7 @@ class State:
         self.lists = {}     # list id -> tuple(items)
         self.pc = []        # list of z3 BoolRef hypotheses
         self.guards = []    # short-circuit guards active while evaluating a sub-expression
+        self.facts = {}     # label -> z3 term: named hypotheses (invariant clauses, hints, definitions)
         self.dead = False
 
     def clone(self):
@@ -38,6 +61,7 @@ class State:
         s.lists = dict(self.lists)
         s.pc = list(self.pc)
         s.guards = list(self.guards)
+        s.facts = dict(self.facts)
         s.dead = self.dead
         return s
 
@@ -53,6 +77,31 @@ class State:
             self.pc.append(z3.Implies(z3.And(*self.guards), b.v))
         else:
             self.pc.append(b.v)
+
+    def knows(self, cond, timeout_ms=150):
+        """cheap entailment check from the quantifier-free conjuncts of the path condition; used only to
+        simplify terms (dropping slice clamps that cannot fire) - never to discharge an obligation"""
+        cond = to_bool(cond)
+        if cond.concrete:
+            return cond.v
+        try:
+            sv = z3.Solver()
+            sv.set('timeout', timeout_ms)
+            for h in self.pc:
+                if not _has_quantifier(h):
+                    sv.add(h)
+            for g in self.guards:
+                sv.add(g)
+            sv.add(z3.Not(cond.v))
+            return sv.check() == z3.unsat
+        except z3.Z3Exception:
+            return False
+
+    def assume_named(self, label, b):
+        b = to_bool(b)
+        self.assume(b)
+        if not b.concrete:
+            self.facts[label] = b.v
 
     def new_list(self, items):
         from .values import SList
@@ -74,6 +123,7 @@ def full_view(base):
 def new_sym_array(state, elem, dtype, shape, name='arr', finite=False):
     shape = _shape(shape)
     base = Base(elem, dtype, shape, 'sym', name)
+    base.finite = bool(finite) and elem == 'float'
     idx = [int_sort()] * len(shape)
     val = z3.Array(fresh_name(name), *idx, elem_sort(elem))
     tag = None
@@ -82,7 +132,7 @@ def new_sym_array(state, elem, dtype, shape, name='arr', finite=False):
             tag = None
         else:
             tag = z3.Array(fresh_name(name + '_t'), *idx, z3.IntSort())
-    state.heap[base.id] = {'val': val, 'tag': tag}
+    state.heap[base.id] = {'val': val, 'tag': tag, 'fn': None}
     return full_view(base)
 
 
@@ -100,18 +150,15 @@ def new_filled_sym_array(state, elem, dtype, shape, fill, name='arr'):
     """np.full/zeros with symbolic shape: a constant array."""
     shape = _shape(shape)
     base = Base(elem, dtype, shape, 'sym', name)
-    idx = [int_sort()] * len(shape)
     if elem == 'float':
-        f = to_float(fill)
-        val = _const_array(idx, f.val)
-        tag = None if f.known_finite else _const_array(idx, f.ztag())
+        fv = to_float(fill)
     elif elem == 'int':
-        val = _const_array(idx, to_int(fill).z())
-        tag = None
+        fv = to_int(fill)
     else:
-        val = _const_array(idx, to_bool(fill).z())
-        tag = None
-    state.heap[base.id] = {'val': val, 'tag': tag}
+        fv = to_bool(fill)
+    if elem == 'float' and fv.known_finite:
+        base.finite = True
+    state.heap[base.id] = fn_content(lambda idx, fv=fv: fv)
     return full_view(base)
 
 
@@ -177,6 +224,13 @@ def read_base(state, base, bidx, assume_types=True):
         for k in range(len(cells) - 2, -1, -1):
             res = merge_values(flat == k, cells[k], res)
         return res
+    if content.get('fn') is not None:
+        v = content['fn'](list(bidx))
+        if base.elem == 'float':
+            return to_float(v)
+        if base.elem == 'int':
+            return to_int(v)
+        return to_bool(v)
     zi = [i.z() for i in bidx]
     val = z3.Select(content['val'], *zi)
     val = z3.simplify(val) if _is_const_select(content['val']) else val
@@ -198,6 +252,45 @@ def read_base(state, base, bidx, assume_types=True):
     return SBool(val)
 
 
+def fn_content(fn):
+    """functional array content: cell idx (list of SInt base indices) |-> value; reads beta-reduce eagerly"""
+    return {'val': None, 'tag': None, 'fn': fn}
+
+
+def content_arrays(base, content):
+    """z3 array terms (val, tag|None) of a content; functional contents are materialised as lambdas (cached)"""
+    if content.get('fn') is None:
+        return content['val'], content['tag']
+    if 'A' not in content:
+        js = [z3.Const(fresh_name('mj'), int_sort()) for _ in base.shape]
+        v = content['fn']([SInt(j) for j in js])
+        if base.elem == 'float':
+            v = to_float(v)
+            content['A'] = z3.Lambda(js, v.val)
+            content['T'] = None if v.known_finite else z3.Lambda(js, v.ztag())
+        elif base.elem == 'int':
+            content['A'] = z3.Lambda(js, to_int(v).z())
+            content['T'] = None
+        else:
+            content['A'] = z3.Lambda(js, to_bool(v).z())
+            content['T'] = None
+    return content['A'], content['T']
+
+
+class _NoAssume:
+    def __init__(self, heap):
+        self.heap = heap
+
+    def assume(self, b):
+        pass
+
+
+def content_reader(base, content):
+    """idx list -> value, reading the given (snapshot) content"""
+    snap = _NoAssume({base.id: content})
+    return lambda idx: read_base(snap, base, idx, assume_types=False)
+
+
 def _is_const_select(arr):
     try:
         return z3.is_K(arr) or z3.is_const_array(arr)
@@ -216,7 +309,13 @@ def _fresh_elem(base):
 def coerce_elem(base, v, ob=None):
     """convert a value to the element type of base (numpy store semantics)."""
     if base.elem == 'float':
-        return to_float(v)
+        f = to_float(v)
+        if base.finite and not f.known_finite:
+            if ob is None:
+                raise Unsupported("possibly non-finite value stored into an array typed finite")
+            ob('range', f.is_fin())
+            f = SFloat(FIN, f.val)
+        return f
     if base.elem == 'bool':
         return to_bool(v)
     if isinstance(v, SFloat):
@@ -251,6 +350,15 @@ def write_base(state, base, bidx, v):
                 cells[k] = merge_values(flat == k, v, cells[k])
         state.heap[base.id] = tuple(cells)
         return
+    if content.get('fn') is not None:
+        oldfn = content['fn']
+        bidx = list(bidx)
+
+        def newfn(idx, oldfn=oldfn, bidx=bidx, v=v):
+            hit = And(*[a == b for a, b in zip(idx, bidx)])
+            return merge_values(hit, v, oldfn(idx)) if not hit.concrete else (v if hit.v else oldfn(idx))
+        state.heap[base.id] = fn_content(newfn)
+        return
     zi = [i.z() for i in bidx]
     new = dict(content)
     if base.elem == 'float':
@@ -282,19 +390,28 @@ def havoc_base(state, base):
         return
     idx = [int_sort()] * len(base.shape)
     content = state.heap[base.id]
-    new = {'val': z3.Array(fresh_name(base.name + '_h'), *idx, elem_sort(base.elem)), 'tag': None}
-    if base.elem == 'float':
+    new = {'val': z3.Array(fresh_name(base.name + '_h'), *idx, elem_sort(base.elem)), 'tag': None, 'fn': None}
+    if base.elem == 'float' and not base.finite:
         new['tag'] = z3.Array(fresh_name(base.name + '_ht'), *idx, z3.IntSort())
     state.heap[base.id] = new
 
 
 # ------------------------------------------------------------------ slicing
 
-def _clamp(x, lo, hi):
-    """clamp x into [lo, hi] (hi >= lo assumed)."""
+def _clamp(x, lo, hi, knows=None):
+    """clamp x into [lo, hi] (hi >= lo assumed); clamps that provably cannot fire are dropped"""
     x = to_int(x)
     if x.concrete and lo.concrete and hi.concrete:
         return SInt(max(lo.v, min(hi.v, x.v)))
+    low_ok = (x >= lo)
+    high_ok = (x <= hi)
+    if knows is not None:
+        r = x
+        if not (low_ok.concrete and low_ok.v) and not knows(low_ok):
+            r = merge_values(x < lo, lo, r)
+        if not (high_ok.concrete and high_ok.v) and not knows(high_ok):
+            r = merge_values(r > hi, hi, r)
+        return r
     r = merge_values(x < lo, lo, x)
     return merge_values(r > hi, hi, r)
 
@@ -306,15 +423,15 @@ def _norm_bound(b, n):
     return b
 
 
-def slice_dim(dim, lo, hi, step):
+def slice_dim(dim, lo, hi, step, knows=None):
     """apply python slice lo:hi:step (None allowed) to a ('rng', off, stride, n) dim."""
     _, off, stride, n = dim
     step = SInt(1) if step is None else to_int(step)
     if not step.concrete:
         raise Unsupported("symbolic slice step")
     if step.v > 0:
-        lo = SInt(0) if lo is None else _clamp(_norm_bound(lo, n), SInt(0), n)
-        hi = n if hi is None else _clamp(_norm_bound(hi, n), SInt(0), n)
+        lo = SInt(0) if lo is None else _clamp(_norm_bound(lo, n), SInt(0), n, knows)
+        hi = n if hi is None else _clamp(_norm_bound(hi, n), SInt(0), n, knows)
         span = hi - lo
         if step.v == 1:
             cnt = span
@@ -322,7 +439,7 @@ def slice_dim(dim, lo, hi, step):
             cnt = (span + (step.v - 1)) // step.v
         if cnt.concrete:
             cnt = SInt(max(cnt.v, 0))
-        else:
+        elif not (knows is not None and knows(span >= 0)):
             cnt = merge_values(cnt < 0, SInt(0), cnt)
         return ('rng', off + stride * lo, stride * step, cnt)
     if step.v == -1 and lo is None and hi is None:
@@ -330,7 +447,38 @@ def slice_dim(dim, lo, hi, step):
     raise Unsupported("negative slice step with explicit bounds")
 
 
-def apply_index(arr, items):
+def name_content(state, base):
+    """replace a functional content by a fresh array symbol plus its definition
+    (forall idx. a[idx] == fn(idx)); keeps later formulas small (the definition is instantiated on demand)"""
+    content = state.heap.get(base.id)
+    if not isinstance(content, dict) or content.get('fn') is None:
+        return
+    idx_sorts = [int_sort()] * len(base.shape)
+    js = [z3.Const(fresh_name('dj'), int_sort()) for _ in base.shape]
+    v = content['fn']([SInt(j) for j in js])
+    val = z3.Array(fresh_name(base.name + '_d'), *idx_sorts, elem_sort(base.elem))
+    new = {'val': val, 'tag': None, 'fn': None}
+    sel = z3.Select(val, *js)
+    if base.elem == 'float':
+        v = to_float(v)
+        eqs = [sel == v.val]
+        if not v.known_finite:
+            tag = z3.Array(fresh_name(base.name + '_dt'), *idx_sorts, z3.IntSort())
+            new['tag'] = tag
+            eqs.append(z3.Select(tag, *js) == v.ztag())
+        else:
+            base.finite = True
+    elif base.elem == 'int':
+        eqs = [sel == to_int(v).z()]
+    else:
+        eqs = [sel == to_bool(v).z()]
+    df = z3.ForAll(js, z3.And(*eqs), patterns=[sel])
+    state.pc.append(df)
+    state.facts['def:' + base.name + ':' + str(base.id)] = df
+    state.heap[base.id] = new
+
+
+def apply_index(arr, items, knows=None):
     """numpy basic indexing: items is a list of ('idx', SInt) | ('slice', lo, hi, step) per rng dim.
     returns (new dims, checks) where checks are (index, length) pairs to be bounds-checked"""
     dims = []
@@ -352,7 +500,7 @@ def apply_index(arr, items):
             checks.append((i, n))
             dims.append(('fix', off + stride * i))
         else:
-            dims.append(slice_dim(d, item[1], item[2], item[3]))
+            dims.append(slice_dim(d, item[1], item[2], item[3], knows))
     if it:
         raise Unsupported("too many indices for array")
     return dims, checks
